@@ -291,40 +291,21 @@ func authzOf(ps []vh.IDPolicy, class func(vh.IDPolicy) string) (cedar.Decision, 
 	return cedar.Deny, nil
 }
 
-func permutations(xs []types.String) [][]types.String {
-	if len(xs) <= 1 {
-		return [][]types.String{append([]types.String{}, xs...)}
-	}
-	var out [][]types.String
-	for i := range xs {
-		rest := append(append([]types.String{}, xs[:i]...), xs[i+1:]...)
-		for _, p := range permutations(rest) {
-			out = append(out, append([]types.String{xs[i]}, p...))
-		}
-	}
-	return out
-}
-
-// consistent orders: permutations with non-decreasing list length (batch sorts by length; ties are unspecified)
+// the order in which batch binds the variables: fewest values first, variables with equally many values by name
+// (a function of the request since `fix: batch binds variables with equally many values in name order`; before, ties
+// were left in Go map order and every permutation with non-decreasing list length had to be tried).
 func c05Orders(vars batch.Variables) [][]types.String {
 	var names []types.String
 	for k := range vars {
 		names = append(names, k)
 	}
-	sort.Slice(names, func(i, j int) bool { return names[i] < names[j] })
-	var out [][]types.String
-	for _, p := range permutations(names) {
-		ok := true
-		for i := 1; i < len(p); i++ {
-			if len(vars[p[i-1]]) > len(vars[p[i]]) {
-				ok = false
-			}
+	sort.Slice(names, func(i, j int) bool {
+		if len(vars[names[i]]) != len(vars[names[j]]) {
+			return len(vars[names[i]]) < len(vars[names[j]])
 		}
-		if ok {
-			out = append(out, p)
-		}
-	}
-	return out
+		return names[i] < names[j]
+	})
+	return [][]types.String{names}
 }
 
 // c05Explain classifies a decision / reason mismatch for substitution sub.  Returns classes, ok.
